@@ -52,6 +52,26 @@ Proof.
   apply tclass_eqb_eq in E1. apply N.eqb_eq in E2. rewrite E1, E2. reflexivity.
 Qed.
 
+(* the number an identifier octet can carry: whatever was written, the value read back is below 64 *)
+Lemma read_identifier_value_lt inp c n rest :
+  read_identifier inp = Ok (c, n, rest) -> n < 64.
+Proof.
+  unfold read_identifier, read_exact.
+  destruct (length inp <? 1)%nat; cbn [bind]; [discriminate|].
+  intros H. injection H as _ Hn _. subst n.
+  change (not8 CLASS_BITS_MASK) with (N.ones 6).
+  rewrite N.land_ones. apply N.mod_lt. discriminate.
+Qed.
+
+(* the identifier round trip holds exactly for tag numbers below 64 *)
+Lemma read_identifier_write_iff c n tail :
+  read_identifier (write_identifier c n ++ tail) = Ok (c, n, tail) <-> n < 64.
+Proof.
+  split.
+  - apply read_identifier_value_lt.
+  - apply read_identifier_write.
+Qed.
+
 (** integers *)
 Lemma pow256 j : 256 ^ N.of_nat j = 2 ^ (8 * N.of_nat j).
 Proof. change 256 with (2 ^ 8). rewrite <- N.pow_mul_r. reflexivity. Qed.
